@@ -20,6 +20,10 @@ type Downloader struct {
 	last     snapshot.NameInfo
 	c        config.Config
 
+	// lastCorrupt indicates that the last processed snapshot was marked as
+	// corrupt and that the Receiver has not offered another one since
+	lastCorrupt bool
+
 	// for signaling new work
 	newSnapshotSignal chan struct{}
 }
@@ -68,6 +72,16 @@ func (d *Downloader) Run(ctx context.Context) error {
 			}
 
 			if ni.FullName == d.last.FullName {
+				if d.lastCorrupt {
+					// The Receiver will ignore this corrupt snapshot from its
+					// next listing on, which can promote an older snapshot of
+					// this instance. It does not notify us about that (never
+					// for our own instance), so check again in a while.
+					if err := utils.SleepContext(ctx, d.c.StorageRetryInterval); err != nil {
+						return err // cancelled
+					}
+					continue
+				}
 				break // already processed the most recent one
 			}
 
@@ -82,6 +96,7 @@ func (d *Downloader) Run(ctx context.Context) error {
 
 			// Mark this as the last processed one
 			d.last = ni
+			d.lastCorrupt = false
 			break // success
 		}
 	}
@@ -126,6 +141,7 @@ func (d *Downloader) LoadOnce(ctx context.Context, ni snapshot.NameInfo) error {
 		// This snapshot is considered corrupt, we will ignore it from now on
 		d.r.MarkCorrupt(ni.FullName, err)
 		d.last = ni
+		d.lastCorrupt = true
 		return err
 	}
 
